@@ -49,7 +49,7 @@ inline std::string Compare(const Ctx& c, const CaseOut& im, const CaseOut& rf, u
 struct Sweep {
     Ctx& c;
     Result& res;
-    std::unordered_set<u64> digests; // distinct (opcode, outcome) pairs with a non-trivial effect
+    DigestSet digests; // distinct (opcode, outcome) pairs with a non-trivial effect
     u64 ref_incomplete = 0;
     Sweep(Ctx& cx, Result& r) : c(cx), res(r) {}
 
